@@ -85,3 +85,74 @@ func VH_C06_eager() {
 	v.Assert(!snd.overlap, "the sender never has two SendMsg (or two RecvMsg) calls in flight on the stream (under this schedule)")
 	v.Cover("fin")
 }
+
+// VH_C06_flood: more outstanding requests than the sender's pipeline and workers hold (N > 132),
+// issued by an eager receiver the moment each STAT arrives, while the listing is still going on and
+// every source read is held back until the listing is complete (a slow disk): the sender neither
+// stalls its listing nor loses a request; every file is delivered and the FIN handshake completes.
+func VH_C06_flood() {
+	n := int(v.Param("N", 140))
+	name := func(i int) string {
+		return "f" + string([]byte{byte('0' + i/100), byte('0' + (i/10)%10), byte('0' + i%10)})
+	}
+	view := &vh_memFS{walkErrAt: -1, wholeReads: true, readGate: make(chan struct{})}
+	for i := 0; i < n; i++ {
+		view.entries = append(view.entries, &vh_memEntry{stat: &types.Stat{Path: name(i), Mode: 0644, Size: 1}, data: []byte{byte(i)}})
+	}
+	ctx := context.Background()
+	// few STATs in flight towards the receiver, ample room for requests towards the sender
+	snd, rcv := vh_newStreamPair2(ctx, 2, 512)
+	var sendErr error
+	done := make(chan struct{})
+	go func() {
+		sendErr = Send(ctx, snd, view, nil)
+		snd.CloseSend()
+		close(done)
+	}()
+	got := map[uint32][]byte{}
+	ended := map[uint32]bool{}
+	stats, nEnded, sawEnd := 0, 0, false
+	for !sawEnd || nEnded < n {
+		var p types.Packet
+		if err := rcv.RecvMsg(&p); err != nil {
+			v.Assert(false, "stream ended before every file was delivered")
+			return
+		}
+		switch p.Type {
+		case types.PACKET_STAT:
+			if p.Stat == nil {
+				sawEnd = true
+				continue
+			}
+			id := uint32(stats)
+			stats++
+			if err := rcv.SendMsg(&types.Packet{Type: types.PACKET_REQ, ID: id}); err != nil {
+				return
+			}
+		case types.PACKET_DATA:
+			if len(p.Data) == 0 {
+				v.Assert(!ended[p.ID], "one terminator per id")
+				ended[p.ID] = true
+				nEnded++
+			} else {
+				got[p.ID] = append(got[p.ID], p.Data...)
+			}
+		default:
+			v.Assert(false, "only STAT and DATA before FIN")
+			return
+		}
+	}
+	v.Assert(stats == n, "every entry is announced")
+	for i := 0; i < n; i++ {
+		v.Assert(len(got[uint32(i)]) == 1 && got[uint32(i)][0] == byte(i), "every requested file is delivered with its bytes")
+	}
+	if err := rcv.SendMsg(&types.Packet{Type: types.PACKET_FIN}); err != nil {
+		return
+	}
+	var p types.Packet
+	err := rcv.RecvMsg(&p)
+	v.Assert(err == nil && p.Type == types.PACKET_FIN, "FIN is echoed")
+	<-done
+	v.Assert(sendErr == nil, "Send returns success after the FIN handshake")
+	v.Cover("done")
+}
